@@ -409,8 +409,13 @@ def exhaustive(ctx, t):
     x0 = 0.0 if rng.random() < 0.3 else rng.uniform(-1, 1) * 10.0 ** rng.uniform(0, 3) * dx * L
     dname = gen.pick(rng, ["x", "a", "q", "t"]) if periodic else gen.pick(
         rng, ["x", "a", "rho", "phi_2"])
-    mesh = df.Mesh(region=df.Region(p1=x0, p2=x0 + L * dx, dims=[dname]), n=L,
-                   bc=dname if periodic else "")
+    bc = dname if periodic else ""
+    if not periodic and rng.random() < 0.3:
+        # an open direction whose one-letter name occurs in the boundary-condition keyword
+        bc = gen.pick(rng, ["neumann", "dirichlet"])
+        dname = gen.pick(rng, sorted(set(bc)))
+        ctx.event("open_direction_named_like_a_letter_of_the_bc_keyword")
+    mesh = df.Mesh(region=df.Region(p1=x0, p2=x0 + L * dx, dims=[dname]), n=L, bc=bc)
     dxm = float(mesh.cell[0])
     runs, _, full = runs_of_line(valid, periodic)
     longest = max([len(r) for r in runs], default=L if full else 0)
@@ -452,6 +457,15 @@ def random_nd(ctx, sub):
     bc = ""
     if periodic:
         bc = dname + "".join(d for d in names if d != dname and rng.random() < 0.3)
+    elif rng.random() < 0.25:
+        # every direction is open, but the names are letters of the bc keyword
+        bc = gen.pick(rng, ["neumann", "dirichlet"])
+        letters = sorted(set(bc))
+        dims = [letters[int(j)] for j in rng.permutation(len(letters))[:nd]]
+        spec.dims = dims
+        names = spec.dim_names
+        dname = names[ax]
+        ctx.event("open_direction_named_like_a_letter_of_the_bc_keyword")
     subregions = None
     if with_sub:
         _, subregions = gen.rand_subregions(rng, spec, kmax=3)
